@@ -150,7 +150,7 @@ impl SendChannelReliable {
 //@before /packets\.push\(Packet::SmallReliable \{/ 2
             let ghost flushed = small_messages;
             let ghost fbytes = small_messages_bytes as int;
-//@after /\*packet_sequence \+= 1;/ 3
+//@after /\*packet_sequence \+= 1;/ last
             proof {
                 let pkf = packets@.last();
                 assert(packets@.drop_last() =~= pk1);
